@@ -108,6 +108,34 @@ class VOpaque:
         return "<opaque %s:%s>" % (self.tag, self.ty if isinstance(self.ty, str) else self.ty.get("s"))
 
 
+class VBits(VOpaque):
+    """the bit pattern of a (non-NaN) float residual, as u64 (`signed` False) or reinterpreted as i64:
+    an unknown integer whose ORDER against another bit pattern is known — equal to the numeric order for
+    two non-negative floats, REVERSED for two negative ones (sign-magnitude), and decided by the sign
+    bit otherwise (set = negative as i64, large as u64)"""
+    __slots__ = ("src", "signed")
+
+    def __init__(self, src, signed, tag):
+        VOpaque.__init__(self, "i64" if signed else "u64", tag)
+        self.src = src
+        self.signed = signed
+
+
+def bits_compare(op, a, b):
+    """condition tree for `a op b` on two bit patterns of the same signedness (op in Lt, Le, Gt, Ge, Eq, Ne)"""
+    x, y = a.src, b.src
+    if op in ("Eq", "Ne"):
+        e = ("fcmp", "Eq", x, y)            # up to the sign of zero
+        return e if op == "Eq" else ("not", e)
+    if op in ("Gt", "Ge"):
+        return bits_compare({"Gt": "Lt", "Ge": "Le"}[op], b, a)
+    sx, sy = ("fcmp", "Lt", x, F.ZERO), ("fcmp", "Lt", y, F.ZERO)
+    both_pos = ("and", ("not", sx), ("not", sy))
+    both_neg = ("and", sx, sy)
+    mixed_true = ("and", sx, ("not", sy)) if a.signed else ("and", ("not", sx), sy)
+    return ("or", ("and", both_pos, ("fcmp", op, x, y)), ("or", ("and", both_neg, ("fcmp", op, y, x)), mixed_true))
+
+
 class VModel:
     """library object with modelled behaviour (iterators)"""
     __slots__ = ("kind", "st")
@@ -765,6 +793,8 @@ class Machine:
                     return (a == b) if op == "Eq" else (a != b)
                 e = ("beq", a, b)
                 return e if op == "Eq" else ("not", e)
+        if isinstance(a, VBits) and isinstance(b, VBits) and a.signed == b.signed and op in cmpops:
+            return bits_compare(op, a, b)
         if isinstance(a, VOpaque) or isinstance(b, VOpaque):
             if op in cmpops:
                 return ("bopq", self.new_name("cmp"))
@@ -776,6 +806,10 @@ class Machine:
     def cast(self, kind, v, ty, span):
         tys = ty["s"]
         if kind == "IntToInt":
+            if isinstance(v, VBits):
+                if tys in ("i64", "u64"):
+                    return VBits(v.src, tys == "i64", v.tag)      # same 64 bits, other interpretation
+                return VOpaque(tys, self.new_name("bits-narrowed"))
             v = simp(v)
             if isinstance(v, int) and tys in INT_RANGE:
                 lo, hi = INT_RANGE[tys]
